@@ -150,8 +150,10 @@ def shard_stream(sh):
         for i in range(n):
             cells = [rng.choice(pool) for _ in range(k - 1)] + [rng.choice(['0', '1'])]
             bad = rng.random() < 0.3
+            truncated = False
             if bad:
                 cells = cells[:-1] if rng.random() < 0.5 else cells + ['extra']
+                truncated = fmt == 'csv-raw' and rng.random() < 0.4
             if fmt == 'ob-raw-dump':
                 line = '\t'.join(cells)
                 if all(c == '' for c in cells):
@@ -160,6 +162,9 @@ def shard_stream(sh):
                 buf = io.StringIO()
                 csv.writer(buf, lineterminator='').writerow(cells)
                 line = buf.getvalue()
+                if truncated:
+                    # a damaged record: an opening quote that is never closed - only this line may be affected
+                    line = 'x,"' + 'truncated'
             lines.append(line)
             if not bad:
                 good.append(cells)
